@@ -238,6 +238,16 @@ theorem C37_source_facts :
     Thanos.Facts.dsCounterNextSeek = ["it.Seek(it.lastT + 1)"] := by
   decide
 
+/-- Regenerated obligations about the entry point: DownsampleRaw hands `downsampleFloatBatch`
+    itself to the loop and that function starts every batch with a fresh `&floatAggregator{}` —
+    the counter of a chunk is relative to the chunk's own first sample (`floatBatch` starts from
+    `Agg.zero`), which is what the first/last raw value encoding relies on. -/
+theorem C37_entry_facts :
+    Thanos.Facts.dsRawBatchFn = ["downsampleHistogramBatch", "downsampleFloatBatch"] ∧
+    Thanos.Facts.dsFloatBatchAggr = ["&floatAggregator{}"] ∧
+    Thanos.Facts.dsFloatBatchCalls = ["newAggrChunkBuilder", "Append", "downsampleBatch", "Append", "encode"] := by
+  decide
+
 -- non-vacuity: a counter with a reset inside a window (t = 3), one exactly between the two chunks
 -- (t = 60) and a NaN; `C37_level1` applies (RawOK, values ≥ 0) and its right-hand side is
 example : RawOK [(1, some 5), (2, some 7), (3, some 2), (4, none), (60, some 1), (61, some 4)] :=
